@@ -697,6 +697,20 @@ pub fn generate_graph(stream: &str, seed: u64, n: usize, emit: &mut dyn FnMut(St
 		let max_nodes = if i % 10 == 0 { 24 } else { 10 };
 		let mut raw = gen_schema(&mut rng, max_nodes, wild);
 		let mut unique = true;
+		if rng.gen_bool(0.2) {
+			// an unnamed node shared by several parents and lying on a cycle through a named
+			// type (what the derive builder produces for `T { f: Vec<T> }` used twice): legal
+			let recs: Vec<usize> = (0..raw.len()).filter(|&k| matches!(raw[k].reg, Reg::Record(..))).collect();
+			if let Some(&r) = recs.choose(&mut rng) {
+				let a = raw.len();
+				raw.push(RawNode { reg: if rng.gen_bool(0.5) { Reg::Array(r) } else { Reg::Map(r) }, logical: None });
+				for &q in recs.iter().filter(|&&q| q == r || rng.gen_bool(0.5)) {
+					if let Reg::Record(_, fs) = &mut raw[q].reg {
+						fs.push((format!("sh{}", fs.len()), a));
+					}
+				}
+			}
+		}
 		if stream == "graph-wild" {
 			// arbitrary damage through the public builder API
 			match rng.gen_range(0..8) {
